@@ -1,4 +1,6 @@
 import P2.Driver.Json
+import P2.Driver.MapSt
+import P2.Driver.Cmp
 import P2.Driver.Binning
 import P2.Driver.Lang
 /-! Line-protocol driver of the model: one request per line on stdin, one response per line on stdout. -/
@@ -7,6 +9,8 @@ open P2.Driver
 def handle (line : String) : String :=
   match splitTab line with
   | "JSON" :: args => handleJson args
+  | "MAPHIST" :: args => handleMapHist args
+  | "CMP" :: args => handleCmp args
   | "BIN" :: args => handleBin args
   | "EVAL" :: args => handleEval args
   | "PING" :: _ => "PONG"
